@@ -328,8 +328,9 @@ def diff(a: dict, b: dict, text: bool, uuid_all: bool = True) -> str | None:
 
 
 # ------------------------------------------------------------------------------------------------ round trips
-class HangTimeout(Exception):
-    """A call into the implementation did not return within the limit (a loop that does not end)."""
+class HangTimeout(BaseException):
+    """A call into the implementation did not return within the limit (a loop that does not end).  Not an Exception: the
+    `except Exception` handlers that turn an error of the implementation into "skip this case" must not swallow it."""
 
 
 HANG_LIMIT_S = 10.0      # one export / parse of these graphs takes a few milliseconds, also on a loaded machine
@@ -362,6 +363,29 @@ def time_limit(seconds: float = HANG_LIMIT_S):
             signal.setitimer(signal.ITIMER_REAL, max(outer_left - (time.monotonic() - t0), 0.01))
 
 
+def arm(seconds: float = 20.0) -> None:
+    """(Re)start a limit for the code that follows, until the next arm() or disarm(): used at the top of every iteration of a
+    correspondence loop, so that one case cannot keep a stage busy for ever.  The HangTimeout ends the stage (a broken
+    tie, see the stage guard in checks/c14.py); the searches, which have their own limits per call, then produce the input."""
+    import signal
+    import threading
+    if threading.current_thread() is not threading.main_thread() or not hasattr(signal, 'setitimer'):
+        return
+
+    def on_alarm(signum, frame):
+        raise HangTimeout(f'one case of the stage did not finish within {seconds:g} s')
+    signal.signal(signal.SIGALRM, on_alarm)
+    signal.setitimer(signal.ITIMER_REAL, seconds)
+
+
+def disarm() -> None:
+    import signal
+    import threading
+    if threading.current_thread() is threading.main_thread() and hasattr(signal, 'setitimer'):
+        signal.setitimer(signal.ITIMER_REAL, 0)
+        signal.signal(signal.SIGALRM, signal.SIG_DFL)
+
+
 def roundtrip(spec: dict, mode: dict) -> tuple[str | None, str]:
     """Build, export, parse, compare.  Returns (problem or None, stage).  mode: {'fmt':'binary','version':v,
     'unicode':u} or {'fmt':'kv2','flat':b,'cull_uuid':b,'unicode':u}.  Every call into the implementation runs under
@@ -371,7 +395,7 @@ def roundtrip(spec: dict, mode: dict) -> tuple[str | None, str]:
         with time_limit():
             elems = build(spec)
             before = canon(elems[0])
-    except Exception as e:   # the mapping API of Element / Attribute on valid arguments
+    except (Exception, HangTimeout) as e:   # the mapping API of Element / Attribute on valid arguments
         return f'building the graph raised {type(e).__name__}: {str(e)[:200]}', 'build'
     buf = io.BytesIO()
     # the format name / version arguments of the exporters (defaults 'dmx', 1 when the mode does not give them)
@@ -382,14 +406,14 @@ def roundtrip(spec: dict, mode: dict) -> tuple[str | None, str]:
                 elems[0].export_binary(buf, version=mode['version'], unicode=mode['unicode'], **fmt_kw)
             else:
                 elems[0].export_kv2(buf, flat=mode['flat'], cull_uuid=mode['cull_uuid'], unicode=mode['unicode'], **fmt_kw)
-    except Exception as e:   # the data is expressible by construction: an export error loses the graph
+    except (Exception, HangTimeout) as e:   # the data is expressible by construction: an export error loses the graph
         return f'export raised {type(e).__name__}: {e}', 'export'
     data = buf.getvalue()
     try:
         with time_limit():
             got, got_name, got_ver = dmx.Element.parse(io.BytesIO(data), unicode=(mode['unicode'] == 'silent'))
             after = canon(got)
-    except Exception as e:
+    except (Exception, HangTimeout) as e:
         return f'parse raised {type(e).__name__}: {str(e)[:200]}', 'parse'
     if (got_name, got_ver) != (fmt_kw.get('fmt_name', 'dmx'), fmt_kw.get('fmt_ver', 1)):
         return f'format name / version {fmt_kw or ("dmx", 1)} came back as {(got_name, got_ver)}', 'header'
@@ -415,7 +439,7 @@ def roundtrip(spec: dict, mode: dict) -> tuple[str | None, str]:
                       uuid_all=not (mode['fmt'] == 'kv2' and mode['cull_uuid'] and not mode['flat']))
             if d2 is not None:
                 return f'a second parse of the same bytes differs: {d2}', 'repeat'
-    except Exception as e:
+    except (Exception, HangTimeout) as e:
         return f'repeating export / parse raised {type(e).__name__}: {str(e)[:200]}', 'repeat'
     return None, 'ok'
 
